@@ -130,7 +130,9 @@ func mutants(n *node.Node, base *blockchain.Block, o node.BlockOpts, r *rand.Ran
 		slotMut("timestamp:same-slot-as-last-block", 0)
 		slotMut("timestamp:earlier-slot", -1-r.Intn(3))
 	}
-	futureSlots := n.Slot.GetSlotNumber(now) - n.Slot.GetSlotNumber(tip.Timestamp) + 3
+	// far enough ahead that it is still a future slot when the mutant is judged, however loaded
+	// the machine is (the judgement re-checks this against the clock and skips otherwise)
+	futureSlots := n.Slot.GetSlotNumber(now) - n.Slot.GetSlotNumber(tip.Timestamp) + 2000
 	slotMut("timestamp:future-slot", futureSlots)
 
 	// generator != slot owner, correctly signed by that other validator
@@ -437,6 +439,13 @@ func main() {
 					evs := n.TakeEvents()
 					k.Count("mutants_"+p, 1)
 					wit := map[string]any{"rule": m.class, "path": p, "state_height": before.height, "block": node.DescribeBlock(m.b), "error": fmt.Sprint(perr)}
+					if m.class == "timestamp:future-slot" && n.Slot.GetSlotNumber(m.b.Header.Timestamp) <= n.Slot.GetSlotNumber(uint32(time.Now().Unix())) {
+						k.Inconclusive("future-slot-mutant-overtaken-by-the-clock")
+						if !bytes.Equal(after.tipID, before.tipID) {
+							return
+						}
+						continue
+					}
 					if perr == nil || !bytes.Equal(after.tipID, before.tipID) {
 						k.Violation("accepted:"+m.class+":"+p, "block violating rule '"+m.class+"' was accepted via "+p, wit)
 						k.Count("mutants_accepted", 1)
